@@ -4,6 +4,7 @@ package main
 import (
 	"fmt"
 	"go/token"
+	"os"
 )
 
 var intrinsics map[string]stubFn
@@ -21,6 +22,28 @@ func init() {
 			t = e.tb.Sym("b", boolSort)
 			c.st.inputs = append(c.st.inputs, inputRec{kind: "bool", t: t})
 			c.set(BoolV{t})
+			return true
+		},
+		// vPick(lo, hi): forks into hi-lo+1 states, one per concrete value (no solver involved)
+		"vPick": func(e *Engine, c *callCtx) bool {
+			lo := e.mustConst(c.args[0].(IntV).t, "vPick bound")
+			hi := e.mustConst(c.args[1].(IntV).t, "vPick bound")
+			if hi < lo {
+				panic(hardErr("vPick: empty range"))
+			}
+			sym := e.freshInt(c.st, "pick", 64, true)
+			c.st.inputs = append(c.st.inputs, inputRec{kind: "int", t: sym.t})
+			for v := lo + 1; v <= hi; v++ {
+				o := e.clone(c.st)
+				o.pc = append(o.pc, e.tb.Eq(sym.t, e.idx(int64(v))))
+				if c.res != nil {
+					o.top().locals[c.res] = e.goInt(int64(v))
+				}
+				e.push(o)
+				e.incForks()
+			}
+			c.st.pc = append(c.st.pc, e.tb.Eq(sym.t, e.idx(int64(lo))))
+			c.set(e.goInt(int64(lo)))
 			return true
 		},
 		"vIntRange": func(e *Engine, c *callCtx) bool {
@@ -82,6 +105,9 @@ func init() {
 			}
 			if !e.feasible(c.st, t) {
 				c.st.status = "assume-false"
+				if os.Getenv("VCHECK_DEBUG") != "" {
+					fmt.Fprintln(os.Stderr, "DEBUG assume-false at", e.pos(c.f, c.in))
+				}
 				return true
 			}
 			c.st.pc = append(c.st.pc, t)
@@ -344,6 +370,11 @@ func init() {
 			e.startThread(c.st, c.f, c.in, sp)
 			return false
 		},
+		"vSpawnStarted": func(e *Engine, c *callCtx) bool {
+			i := e.mustConst(c.args[0].(IntV).t, "vSpawnStarted index")
+			c.set(BoolV{e.tb.Bool(c.st.started[i])})
+			return true
+		},
 		"vSpawnIs": func(e *Engine, c *callCtx) bool {
 			i := e.mustConst(c.args[0].(IntV).t, "vSpawnIs index")
 			name := c.args[1].(StrV).lit
@@ -388,6 +419,15 @@ func init() {
 			v, ok := c.st.ghost[c.args[0].(StrV).lit]
 			if !ok {
 				c.set(BoolV{e.tb.ff})
+				return true
+			}
+			c.set(v)
+			return true
+		},
+		"vGhostInt": func(e *Engine, c *callCtx) bool {
+			v, ok := c.st.ghost[c.args[0].(StrV).lit].(IntV)
+			if !ok {
+				c.set(e.goInt(0))
 				return true
 			}
 			c.set(v)
